@@ -983,7 +983,7 @@ Proof.
   destruct (ids_chan sx l f' _ Hfl Hin) as (m' & i' & Hin' & _ & Em & Ei).
   assert (H0 : In (f, m, i) ids) by (apply Hi; now left).
   pose proof (Hf _ _ _ H0) as Hfound. destruct (chan_of_found sx m i Hfound) as [Em0 Ei0].
-  assert (m' = m) by congruence. assert (i' = i) by congruence. subst m' i'.
+  subst m' i'. rewrite Em0, Ei0 in Hin'.
   assert (f = f') by (apply (Hinj f f' m i); [exact H0|now apply Hl]). subst f'. contradiction.
 Qed.
 
@@ -1017,4 +1017,149 @@ Proof.
       destruct (task_chan_id _ _ _ _ _ _ TF Hc H1) as (_ & [[D1 _]|[_ I1]]); [discriminate D1|].
       destruct (task_chan_id _ _ _ _ _ _ TF Hc' H2) as (_ & [[_ I2]|[D2 _]]); [|discriminate D2].
       apply nanos6_ids_model in I1. apply nosv_ids_model in I2. rewrite I1 in I2. discriminate I2.
+Qed.
+
+(* ---------------------------------------------------------------- the decoders satisfy the event condition *)
+
+Lemma table_fields_ok : forallb field_row_okb Tables_gen.table = true.
+Proof. vm_compute. reflexivity. Qed.
+
+Lemma table_lookup_field tb m c v ch a x :
+  forallb field_row_okb tb = true -> table_lookup tb m c v = Some (ch, a, x) -> conv_action a = SET -> is_field m ch = false.
+Proof.
+  induction tb as [|[[[[[m' c'] v'] ch'] a'] x'] tb IH]; cbn [table_lookup forallb]; intros F H Ha; [discriminate|].
+  apply andb_prop in F as [F0 F]. destruct ((m =? m') && (c =? c') && (v =? v')) eqn:E.
+  - injection H as <- <- <-. apply andb_prop in E as [E _]. apply andb_prop in E as [Em _]. apply Z.eqb_eq in Em. subst.
+    cbn [field_row_okb] in F0. destruct a'; try discriminate Ha. now apply negb_true_iff in F0.
+  - now apply IH.
+Qed.
+
+(* a channel found by (model, index) that is not a task field is none of the task channels *)
+Lemma not_field_chan sx en m i k :
+  tasks_found en (s_chans sx) -> chan_pos (s_chans sx) m i = Some k -> is_field m i = false ->
+  forall cfg mdl f k', In (cfg, mdl) (task_models en (s_chans sx)) -> In (f, k') (tc_chans cfg) -> k' <> k.
+Proof.
+  intros TF Hp Hnf cfg mdl f k' Hc Hfk ->. pose proof (task_chan_field _ _ _ _ _ _ TF Hc Hfk) as H.
+  destruct (chan_pos_spec _ _ _ _ Hp) as (_ & Hm & Hi). fold (spec_of sx k) in Hm, Hi. rewrite Hm, Hi in H. congruence.
+Qed.
+
+Ltac walk_tv :=
+  repeat match goal with
+  | |- ev_tv _ _ (if ?b then _ else _) => destruct b eqn:?
+  | |- ev_tv _ _ (match ?o with Some _ => _ | None => _ end) => destruct o eqn:?
+  | |- ev_tv _ _ (let '(_, _) := ?p in _) => destruct p
+  end.
+
+Ltac chan_tv TF :=
+  cbn [ev_tv]; intros Hset; try discriminate Hset;
+  match goal with
+  | Hp : chan_pos (s_chans _) _ _ = Some _ |- _ => apply (not_field_chan _ _ _ _ _ TF Hp); reflexivity
+  end.
+
+Theorem decode_all_ev_tv en sx m c v p j aux :
+  tasks_found en (s_chans sx) -> ev_tv sx en (decode_all en (s_chans sx) m c v p j aux).
+Proof.
+  intros TF. unfold decode_all.
+  destruct ((m =? M_OVNI) && (c =? 77)).
+  { (* marks *) destruct (memz M_OVNI en); [|exact I]. unfold decode_mark. walk_tv; try exact I; chan_tv TF. }
+  unfold decode_full. destruct (negb (memz m en)) eqn:En; [exact I|]. apply negb_false_iff in En.
+  destruct (decode_task (s_chans sx) m c v p j aux) as [e|] eqn:Et.
+  { unfold decode_task in Et.
+    repeat match type of Et with
+    | (if ?b then _ else _) = _ => destruct b eqn:?
+    | None = Some _ => discriminate Et
+    | Some _ = Some _ => injection Et as <-
+    end; walk_tv; try exact I; cbn [ev_tv]; try (intros Hset; discriminate Hset);
+    repeat match goal with H : (_ =? _) = true |- _ => apply Z.eqb_eq in H; subst end.
+    - unfold task_models. rewrite En. now left.
+    - unfold task_models. rewrite En. apply in_or_app. right. now left. }
+  unfold decode. rewrite En. cbn [negb].
+  destruct (m =? M_OVNI).
+  { unfold decode_ovni. walk_tv; try exact I; chan_tv TF. }
+  destruct (m =? M_KERNEL).
+  { walk_tv; exact I. }
+  destruct (negb _); [exact I|].
+  destruct (table_lookup Tables_gen.table m c v) as [[[ch a] x]|] eqn:Etab; [|exact I].
+  destruct (chan_pos (s_chans sx) m ch) as [k|] eqn:Ep; [|exact I]. cbn [ev_tv].
+  intros Ha. apply (not_field_chan _ _ _ _ _ TF Ep). exact (table_lookup_field _ _ _ _ _ _ _ table_fields_ok Etab Ha).
+Qed.
+
+(* ---------------------------------------------------------------- whole runs: what the rows of the task channels show *)
+
+Lemma any_init_ok_specs sx en ms :
+  In en (sublists all_models) -> s_chans sx = mk_chans en ++ mark_chans ms -> any_init_ok sx.
+Proof.
+  intros Hen Hcs. apply any_init_okb_ok. rewrite Hcs. unfold any_init_okb. rewrite forallb_app.
+  pose proof dumped_specs_ok as D. rewrite forallb_forall in D. specialize (D en Hen). apply andb_prop in D as [_ D].
+  unfold any_init_okb in D. rewrite D. cbn [andb].
+  unfold mark_chans. apply forallb_forall. intros sp H. apply in_map_iff in H as [mt [<- _]]. reflexivity.
+Qed.
+
+Lemma decode_events_app en cs a b : decode_events en cs (a ++ b) = decode_events en cs a ++ decode_events en cs b.
+Proof. unfold decode_events. apply map_app. Qed.
+
+Lemma decode_events_tv sx en revs :
+  tasks_found en (s_chans sx) -> Forall (fun e => ev_tv sx en (snd e)) (decode_events en (s_chans sx) revs).
+Proof.
+  intros TF. unfold decode_events. apply Forall_forall. intros e He.
+  apply in_map_iff in He as [[[[[[tm who] [[m c] v]] p] j] aux] [<- _]]. cbn [snd]. now apply decode_all_ev_tv.
+Qed.
+
+(* the invariant in every state reached from the initial one by decoded events *)
+Theorem reachable_tv sx en ms revs st tl :
+  In en (sublists all_models) -> s_chans sx = mk_chans en ++ mark_chans ms ->
+  run_from sx (init sx) (decode_events en (s_chans sx) revs) = Ok (st, tl) -> TV sx en st.
+Proof.
+  intros Hen Hcs H. destruct (specs_task_static sx en ms Hen Hcs) as [TS TF]. destruct (init_tv sx en TS) as [A0 T0].
+  exact (proj2 (run_from_tv sx en TS _ _ _ _ (decode_events_tv sx en revs TF) A0 T0 H)).
+Qed.
+
+Theorem task_views sx en ms revs1 revs2 st tl :
+  In en (sublists all_models) -> s_chans sx = mk_chans en ++ mark_chans ms -> types_ok sx ->
+  run_from sx (init sx) (decode_events en (s_chans sx) (revs1 ++ revs2)) = Ok (st, tl) ->
+  exists st1 tl1, run_from sx (init sx) (decode_events en (s_chans sx) revs1) = Ok (st1, tl1) /\
+    forall t, (t < length (s_threads sx))%nat ->
+    forall cfg mdl, In (cfg, mdl) (task_models en (s_chans sx)) ->
+    forall f k, In (f, k) (tc_chans cfg) ->
+      let sp := spec_of sx k in
+      shown (lines_of tl1) (false, t, cs_type sp) =
+      printed (cs_flags sp)
+        (if mode_ok (cs_thtrack sp) (thread_state_of st1 t)
+         then expected (tinfo sx t) (thread_top sx st1 t mdl) f else None).
+Proof.
+  intros Hen Hcs Hty H. rewrite decode_events_app in H.
+  destruct (tracked_rows sx _ _ st tl Hty (any_init_ok_specs sx en ms Hen Hcs) H) as (st1 & tl1 & E1 & K).
+  exists st1, tl1. split; [exact E1|]. intros t Ht cfg mdl Hc f k Hfk. cbv zeta.
+  destruct (specs_task_static sx en ms Hen Hcs) as [TS _].
+  destruct (ts_spec _ _ TS _ _ _ _ Hc Hfk) as (Hk & Hstk & _).
+  rewrite (proj1 (K k Hk) t Ht). unfold raw_read. rewrite Hstk.
+  rewrite (reachable_tv sx en ms revs1 st1 tl1 Hen Hcs E1 t Ht cfg mdl Hc f k Hfk). reflexivity.
+Qed.
+
+(* ---------------------------------------------------------------- a sufficient condition for types_ok: distinct mark types *)
+
+Lemma dumped_types_small : forallb (fun en => forallb (fun sp => cs_type sp <? 100) (mk_chans en)) (sublists all_models) = true.
+Proof. vm_compute. reflexivity. Qed.
+
+Theorem types_ok_marks sx en ms :
+  In en (sublists all_models) -> s_chans sx = mk_chans en ++ mark_chans ms ->
+  NoDup (map mt_type ms) -> (forall m, In m ms -> 0 <= mt_type m) -> types_ok sx.
+Proof.
+  intros Hen Hcs Nd Hpos.
+  pose proof dumped_specs_ok as D. rewrite forallb_forall in D. specialize (D en Hen). apply andb_prop in D as [D _].
+  pose proof (types_okb_ok {| s_threads := []; s_cpus := []; s_chans := mk_chans en; s_lint := false |} D) as [N1 N2].
+  unfold th_types, cpu_types in N1, N2. cbn [s_chans] in N1, N2.
+  pose proof dumped_types_small as S. rewrite forallb_forall in S. specialize (S en Hen). rewrite forallb_forall in S.
+  assert (Nm : NoDup (map cs_type (mark_chans ms))).
+  { unfold mark_chans. rewrite map_map. cbn [cs_type].
+    replace (map (fun x : mtype => 100 + mt_type x) ms) with (map (fun z => 100 + z) (map mt_type ms)) by (rewrite map_map; reflexivity).
+    apply NoDup_map_inj_in; [exact Nd|]. intros x y _ _ E. lia. }
+  assert (Hbig : forall b, In b (map cs_type (mark_chans ms)) -> 100 <= b).
+  { intros b Hb. unfold mark_chans in Hb. rewrite map_map in Hb. apply in_map_iff in Hb as (m & <- & Hm). cbn [cs_type]. specialize (Hpos m Hm). lia. }
+  assert (Hsmall : forall b, In b (map cs_type (mk_chans en)) -> b < 100).
+  { intros b Hb. apply in_map_iff in Hb as (sp & <- & Hsp). specialize (S sp Hsp). lia. }
+  unfold types_ok, th_types, cpu_types. rewrite Hcs, map_app, !app_assoc.
+  split; (apply NoDup_app_disjoint; [assumption|exact Nm|]); intros b H1 H2; specialize (Hbig b H2);
+    apply in_app_or in H1 as [H1|H1]; try (specialize (Hsmall b H1); lia);
+    cbn [In] in H1; unfold PRV_THREAD_CPU, PRV_THREAD_TID, PRV_THREAD_STATE, PRV_CPU_TID, PRV_CPU_PID, PRV_CPU_NRUN in H1; lia.
 Qed.
